@@ -82,6 +82,12 @@ int clock_gettime(clockid_t id, struct timespec *ts)
 			     "pcmpeqd %%xmm15, %%xmm15\n" ::
 				     : "xmm0", "xmm1", "xmm2", "xmm3", "xmm4", "xmm5", "xmm6", "xmm7", "xmm8",
 				       "xmm9", "xmm10", "xmm11", "xmm12", "xmm13", "xmm14", "xmm15");
+	if (clobber_xmm == 3) /* AVX-512 machine: all of zmm0-7 written, then vzeroupper */
+		asm volatile("vpternlogd $0xff, %%zmm0, %%zmm0, %%zmm0\n vpternlogd $0xff, %%zmm1, %%zmm1, %%zmm1\n"
+			     "vpternlogd $0xff, %%zmm2, %%zmm2, %%zmm2\n vpternlogd $0xff, %%zmm3, %%zmm3, %%zmm3\n"
+			     "vpternlogd $0xff, %%zmm4, %%zmm4, %%zmm4\n vpternlogd $0xff, %%zmm5, %%zmm5, %%zmm5\n"
+			     "vpternlogd $0xff, %%zmm6, %%zmm6, %%zmm6\n vpternlogd $0xff, %%zmm7, %%zmm7, %%zmm7\n"
+			     "vzeroupper\n" ::: "memory");
 	if (clobber_xmm == 2) /* AVX machine: what libc's AVX2 string functions leave: upper halves cleared */
 		asm volatile("vpcmpeqd %%ymm0, %%ymm0, %%ymm0\n vpcmpeqd %%ymm1, %%ymm1, %%ymm1\n"
 			     "vpcmpeqd %%ymm2, %%ymm2, %%ymm2\n vpcmpeqd %%ymm3, %%ymm3, %%ymm3\n"
@@ -195,6 +201,96 @@ asm(".text\n .globl call_with_xmm\n .type call_with_xmm,@function\n call_with_xm
     X16(ST, "r12")
     " pop %rbp\n pop %r14\n pop %r13\n pop %r12\n pop %rbx\n ret\n"
     " .size call_with_xmm, .-call_with_xmm\n");
+
+unsigned long call_with_xmm(const uint64_t *before, uint64_t *after, void *fn, long a1, long a2, long a3);
+unsigned long call_with_ymm(const uint64_t *before, uint64_t *after, void *fn, long a1, long a2, long a3);
+/* the same with the 512-bit registers (only called when the CPU has AVX-512F) */
+void zmm_roundtrip(const uint64_t *before, const uint64_t *clobber, uint64_t *after, void *ctx);
+#define LDZ(i, base) " vmovdqu64 " #i "*64(%" base "), %zmm" #i "\n"
+#define STZ(i, base) " vmovdqu64 %zmm" #i ", " #i "*64(%" base ")\n"
+asm(".text\n .globl zmm_roundtrip\n .type zmm_roundtrip,@function\n zmm_roundtrip:\n"
+    " push %rbx\n push %r12\n push %r13\n push %r14\n push %rbp\n"
+    " mov %rdi, %rbx\n mov %rsi, %r12\n mov %rdx, %r13\n mov %rcx, %r14\n"
+    X16(LDZ, "rbx")
+    " mov %r14, %rdi\n call mcount_save_arch_context\n"
+    X16(LDZ, "r12")
+    " mov %r14, %rdi\n call mcount_restore_arch_context\n"
+    X16(STZ, "r13")
+    " vzeroupper\n"
+    " pop %rbp\n pop %r14\n pop %r13\n pop %r12\n pop %rbx\n ret\n"
+    " .size zmm_roundtrip, .-zmm_roundtrip\n");
+unsigned long call_with_zmm(const uint64_t *before, uint64_t *after, void *fn, long a1, long a2, long a3);
+asm(".text\n .globl call_with_zmm\n .type call_with_zmm,@function\n call_with_zmm:\n"
+    " push %rbx\n push %r12\n push %r13\n push %r14\n push %rbp\n"
+    " mov %rdi, %rbx\n mov %rsi, %r12\n mov %rdx, %r13\n"
+    " mov %rcx, %rdi\n mov %r8, %rsi\n mov %r9, %rdx\n"
+    X16(LDZ, "rbx")
+    " call *%r13\n"
+    X16(STZ, "r12")
+    " vzeroupper\n"
+    " pop %rbp\n pop %r14\n pop %r13\n pop %r12\n pop %rbx\n ret\n"
+    " .size call_with_zmm, .-call_with_zmm\n");
+
+/* 0: xmm only, 1: AVX, 2: AVX-512F */
+static int vec_level(void)
+{
+	if (__builtin_cpu_supports("avx512f"))
+		return 2;
+	return __builtin_cpu_supports("avx") ? 1 : 0;
+}
+
+/* registers are passed around as 16 x 8 words; narrower machines use the low words (words above the
+ * vector length read as 0 after a VEX load; on an xmm-only machine they do not exist: reported as 0) */
+static void pack(const uint64_t *full, uint64_t *narrow, int nw)
+{
+	int r, i;
+	for (r = 0; r < 16; r++)
+		for (i = 0; i < nw; i++)
+			narrow[r * nw + i] = full[r * 8 + i];
+}
+static void unpack(const uint64_t *narrow, uint64_t *full, int nw)
+{
+	int r, i;
+	for (r = 0; r < 16; r++)
+		for (i = 0; i < 8; i++)
+			full[r * 8 + i] = i < nw ? narrow[r * nw + i] : 0;
+}
+static void vec_roundtrip(int level, const uint64_t *before, const uint64_t *clobber, uint64_t *after, void *ctx)
+{
+	static __thread uint64_t b[128], c[128], a[128];
+	int nw = level == 2 ? 8 : level == 1 ? 4 : 2;
+	pack(before, b, nw);
+	pack(clobber, c, nw);
+	if (level == 2)
+		zmm_roundtrip(b, c, a, ctx);
+	else if (level == 1)
+		ymm_roundtrip(b, c, a, ctx);
+	else
+		xmm_roundtrip(b, c, a, ctx);
+	unpack(a, after, nw);
+	if (level == 0) { /* legacy loads leave the (non-existing) upper words alone: echo the clobber */
+		int r, i;
+		for (r = 0; r < 16; r++)
+			for (i = 2; i < 8; i++)
+				after[r * 8 + i] = clobber[r * 8 + i];
+	}
+}
+static unsigned long vec_call(int level, const uint64_t *before, uint64_t *after, void *fn, long a1, long a2, long a3)
+{
+	static __thread uint64_t b[128], a[128];
+	int nw = level == 2 ? 8 : level == 1 ? 4 : 2;
+	unsigned long r;
+	pack(before, b, nw);
+	memset(a, 0xee, sizeof(a));
+	if (level == 2)
+		r = call_with_zmm(b, a, fn, a1, a2, a3);
+	else if (level == 1)
+		r = call_with_ymm(b, a, fn, a1, a2, a3);
+	else
+		r = call_with_xmm(b, a, fn, a1, a2, a3);
+	unpack(a, after, nw);
+	return r;
+}
 
 /* the same with ymm0..15 (4 words each); only used when the CPU has AVX */
 unsigned long call_with_ymm(const uint64_t *before, uint64_t *after, void *fn, long a1, long a2, long a3);
@@ -364,81 +460,66 @@ static void do_op(char *line)
 			for (i = 0; i < 32; i++)
 				printf(" %llx", (unsigned long long)after[i]);
 		}
-		else if (!strcmp(op, "YE") && __builtin_cpu_supports("avx")) {
+		else if (!strcmp(op, "VE")) {
 			struct mcount_regs regs;
-			static __thread uint64_t before[64], after[64];
-			int r, i, e;
+			static __thread uint64_t before[128], after[128];
+			int r, i, e, level = vec_level();
 			strtok(line, " ");
 			k = atoi(strtok(NULL, " "));
 			s = strtoul(strtok(NULL, " "), NULL, 10);
-			read_words(strtok(NULL, "\n"), before, 64);
+			read_words(strtok(NULL, "\n"), before, 128);
 			memset(&regs, 0, sizeof(regs));
-			memset(after, 0xee, sizeof(after));
-			clobber_xmm = 2;
+			clobber_xmm = 1 + level;
 			errno = 77;
-			r = (int)call_with_ymm(before, after, (void *)mcount_entry, (long)SLOT(s),
-					       (long)funcs[k % NFUNC] + 4, (long)&regs);
+			r = (int)vec_call(level, before, after, (void *)mcount_entry, (long)SLOT(s),
+					  (long)funcs[k % NFUNC] + 4, (long)&regs);
 			e = errno;
 			clobber_xmm = 0;
-			printf("YE %d %d", r, e == 77);
-			for (i = 0; i < 64; i++)
+			printf("VE %d %d %d", level, r, e == 77);
+			for (i = 0; i < 128; i++)
 				printf(" %llx", (unsigned long long)after[i]);
 		}
-		else if (!strcmp(op, "YR") && __builtin_cpu_supports("avx")) {
+		else if (!strcmp(op, "VR")) {
 			long rv[4] = { 42, 43, 0, 0 };
-			static __thread uint64_t before[64], after[64];
+			static __thread uint64_t before[128], after[128];
 			unsigned long *sl;
-			int n = 0, ok = 1, i;
+			int n = 0, ok = 1, i, level = vec_level();
 			strtok(line, " ");
 			s = strtoul(strtok(NULL, " "), NULL, 10) % NSLOT;
 			sl = SLOT(s);
-			read_words(strtok(NULL, "\n"), before, 64);
+			read_words(strtok(NULL, "\n"), before, 128);
 			memcpy(after, before, sizeof(after));
 			while (mcount_return_fn && *sl == mcount_return_fn && mtd.idx > 0 && n < 100000) {
-				clobber_xmm = 2;
+				clobber_xmm = 1 + level;
 				errno = 55;
-				*sl = call_with_ymm(before, after, (void *)mcount_exit, (long)rv, 0, 0);
+				*sl = vec_call(level, before, after, (void *)mcount_exit, (long)rv, 0, 0);
 				if (errno != 55)
 					ok = 0;
 				clobber_xmm = 0;
 				n++;
 			}
-			printf("YR %d", n);
+			printf("VR %d %d", level, n);
 			pword(*sl);
 			printf(" %d", ok);
-			for (i = 0; i < 64; i++)
+			for (i = 0; i < 128; i++)
 				printf(" %llx", (unsigned long long)after[i]);
 		}
-		else if (!strcmp(op, "YMM")) {
-			static uint64_t before[64], clobber[64], after[64];
-			static uint64_t ctx[128] __attribute__((aligned(32)));
+		else if (!strcmp(op, "VEC")) {
+			static __thread uint64_t before[128], clobber[128], after[128];
+			static uint64_t ctx[256] __attribute__((aligned(64)));
 			char *p = line + 3;
-			int i, avx = __builtin_cpu_supports("avx");
-			for (i = 0; i < 128; i++) {
+			int i, level = vec_level();
+			for (i = 0; i < 256; i++) {
 				uint64_t w = strtoull(p, &p, 16);
-				if (i < 64)
+				if (i < 128)
 					before[i] = w;
 				else
-					clobber[i - 64] = w;
+					clobber[i - 128] = w;
 			}
 			memset(ctx, 0, sizeof(ctx));
-			memset(after, 0xee, sizeof(after));
-			if (avx)
-				ymm_roundtrip(before, clobber, after, ctx);
-			else {
-				uint64_t b[32], c[32], a[32];
-				for (i = 0; i < 16; i++) {
-					b[2 * i] = before[4 * i], b[2 * i + 1] = before[4 * i + 1];
-					c[2 * i] = clobber[4 * i], c[2 * i + 1] = clobber[4 * i + 1];
-				}
-				xmm_roundtrip(b, c, a, ctx);
-				for (i = 0; i < 16; i++) {
-					after[4 * i] = a[2 * i], after[4 * i + 1] = a[2 * i + 1];
-					after[4 * i + 2] = clobber[4 * i + 2], after[4 * i + 3] = clobber[4 * i + 3];
-				}
-			}
-			printf("YMM %d", avx ? 1 : 0);
-			for (i = 0; i < 64; i++)
+			vec_roundtrip(level, before, clobber, after, ctx);
+			printf("VEC %d", level);
+			for (i = 0; i < 128; i++)
 				printf(" %llx", (unsigned long long)after[i]);
 		}
 		else if (!strcmp(op, "XMM")) {
@@ -517,7 +598,7 @@ static void dispatch(int n, char *line)
 
 int main(int argc, char **argv)
 {
-	static char line[1 << 15];
+	static char line[1 << 16];
 	int cur = 0;
 
 	if (argc > 1)
